@@ -111,6 +111,20 @@ def run_fun_model(prop, tier, bins, workdir, timeout_s):
         res["exhaustive"] = False
     res["emitted"] = emitted
     for prof, p in reps.items():
+        if p.returncode == 3:
+            # watchdog: a call of the code under test did not return while replaying
+            case = {}
+            for line in outs.get(prof, "").splitlines():
+                if '"k":"HANG"' in line:
+                    try:
+                        case = json.loads(line).get("case", {})
+                    except Exception:
+                        pass
+            ev = {"op": case.get("op", "?") if isinstance(case, dict) else "?", "cf": "fun", "f": "", "x": case.get("x", {}) if isinstance(case, dict) else {},
+                  "y": {"k": str(case.get("y")) if isinstance(case, dict) else "?", "b": []}, "a": case.get("a", {}) if isinstance(case, dict) else {}}
+            res["violations"].append({"profile": prof, "shard": "replay:" + res["name"], "line": 0, "event": ev,
+                                      "complaints": ["call-does-not-return"], "expected": {}, "prefix": []})
+            continue
         if p.returncode != 0:
             res["tool_errors"].append("replay (%s) failed with exit %s: %s" % (prof, p.returncode, p.stderr.read()[-1500:]))
             continue
